@@ -15,7 +15,7 @@ use std::rc::Rc;
 pub static ENGINE: Engine = Engine {
     prop: "C13",
     level: "model_checking",
-    rule: "explicit-state exploration of the hidden state of BDDEnv<usize> for k=2 variables (ids 1,5): state = set of interned structures = child-closed subset of the 14 possible internal nodes (ALL such subsets are enumerated; each is built in a fresh real environment by a history of public mk_choice calls from the initial table, and the build is checked to yield exactly that table); transitions = every public operation (var, mk_const, not, 8 binary, ite, exists/all/exists_impl x variable lists <= 2, aln/amn/exn x operand lists <= 2 x n in -1..3, count_* x lists <= 1, model, infer, retain x 3 filters, clean, find, simplify, fp x 3 transformers, mk_choice with ordered arguments) on every tuple of currently interned nodes. After every transition: result == the same call in a minimal fresh environment (and == canon of the expected function where defined); every previously held handle unchanged; every table key equals its value, every child pointer of every table node and the result are Rc::ptr_eq to the table entry of the same structure; both leaves present; size() = number of keys; table only grows. Abstraction check: for every state-changing edge S -op1-> S1 the real post-history environment and build(S1) give identical results and identical successor tables for a set of follow-up operations. Long-lived histories: every sequence of 2 and 3 operations (not, all 8 binary connectives (3 at the third step in quick), exists, model, retain with both filters, clean on a pool of six functions plus earlier results; only the results are held, the operands are looked up in the table) on ONE environment, each result compared with a fresh environment, all earlier results re-inspected and the table invariants checked after every step. Big table: one environment grown to ~66 000 nodes (1 200 variables, all 65 536 functions of four variables) with sharing and recomputation checks at checkpoints. Formula level: every sequence <= 3 of 10 formulas through ParsedFormula::new_with_env on one shared environment vs fresh environments with re-inspection of all earlier results. distinct = distinct (state, operation, operands)",
+    rule: "explicit-state exploration of the hidden state of BDDEnv<usize> for k=2 variables (ids 1,5): state = set of interned structures = child-closed subset of the 14 possible internal nodes (ALL such subsets are enumerated; each is built in a fresh real environment by a history of public mk_choice calls from the initial table, and the build is checked to yield exactly that table); transitions = every public operation (var, mk_const, not, 8 binary, ite, exists/all/exists_impl x variable lists <= 2, aln/amn/exn x operand lists <= 2 x n in -1..3, count_* x lists <= 1, model, infer, retain x 3 filters, clean, find, simplify, fp x 3 transformers, mk_choice with ordered arguments) on every tuple of currently interned nodes. After every transition: result == the same call in a minimal fresh environment (and == canon of the expected function where defined); every previously held handle unchanged; every table key equals its value, every child pointer of every table node and the result are Rc::ptr_eq to the table entry of the same structure; both leaves present; size() = number of keys; table only grows. Abstraction check: for every state-changing edge S -op1-> S1 the real post-history environment and build(S1) give identical results and identical successor tables for a set of follow-up operations. Long-lived histories: every sequence of 2 and 3 operations (not, all 8 binary connectives (3 at the third step in quick), exists, model, retain with both filters, clean on a pool of six functions plus earlier results; only the results are held, the operands are looked up in the table) on ONE environment, each result compared with a fresh environment, all earlier results re-inspected and the table invariants checked after every step. Big table: one environment grown to ~66 000 nodes (1 200 variables, all 65 536 functions of four variables) with sharing and recomputation checks at checkpoints. Formula level: every sequence <= 3 of 12 formulas through ParsedFormula::new_with_env on one shared environment, once with an explicit ordering and once with each parse's own default ordering, vs fresh environments (variable lists by name and id, diagram) with re-inspection of all earlier results. distinct = distinct (state, operation, operands)",
     assumptions: &["state abstraction = table contents (validated by the abstraction check: equal tables have equal futures)", "k=2 for the complete exploration; larger variable sets only through the formula-level sequences"],
     max_shards: 64,
     run,
@@ -880,7 +880,7 @@ fn big_table_history(ctx: &mut Ctx) {
 // ---------------------------------------------------------------------------------------
 // formula level: sequences of formulas sharing one environment
 
-const FORMULAS: [&str; 10] = [
+const FORMULAS: [&str; 12] = [
     "a & b",
     "a | -c",
     "exists a # a ^ b",
@@ -891,46 +891,57 @@ const FORMULAS: [&str; 10] = [
     "forall b # a => b",
     "[a, b] < [c]",
     "a <=> (b nand c)",
+    "b & -a | c",
+    "c | (exists X # X & b) | a",
 ];
 
 fn formula_sequences(ctx: &mut Ctx) {
-    let ordering: Vec<NamedSymbol> = ["a", "b", "c", "X"].iter().enumerate().map(|(i, n)| crate::conv::sym(n, i * 2 + 1)).collect();
-    let fresh: Vec<Rc<BDD<NamedSymbol>>> = FORMULAS
-        .iter()
-        .map(|f| {
-            let p = ParsedFormula::new(&mut std::io::BufReader::new(f.as_bytes()), Some(ordering.clone())).expect("machinery: formula set must parse");
-            crate::conv::impl_eval(&p).unwrap_or_default()
-        })
-        .collect();
-    let mut idx = 0u64;
+    formula_sequences_mode(ctx, true);
+    formula_sequences_mode(ctx, false);
+}
+
+/// explicit: every formula is parsed with the same explicit ordering; otherwise with none,
+/// so that each parse assigns its own default (first-appearance) order — the outcome (variable
+/// lists by name and id, diagram) must be that of a fresh environment all the same
+fn formula_sequences_mode(ctx: &mut Ctx, explicit: bool) {
+    let ordering: Option<Vec<NamedSymbol>> = if explicit { Some(["a", "b", "c", "X"].iter().enumerate().map(|(i, n)| crate::conv::sym(n, i * 2 + 1)).collect()) } else { None };
+    let lists = |p: &ParsedFormula| -> (Vec<(String, usize)>, Vec<(String, usize)>) { (p.vars.iter().map(|v| (v.name.to_string(), v.id)).collect(), p.free_vars.iter().map(|v| (v.name.to_string(), v.id)).collect()) };
+    let fresh_p: Vec<ParsedFormula> = FORMULAS.iter().map(|f| ParsedFormula::new(&mut std::io::BufReader::new(f.as_bytes()), ordering.clone()).expect("machinery: formula set must parse")).collect();
+    let fresh_lists: Vec<_> = fresh_p.iter().map(lists).collect();
+    let fresh: Vec<Rc<BDD<NamedSymbol>>> = fresh_p.iter().map(|p| crate::conv::impl_eval(p).unwrap_or_default()).collect();
+    let mut idx = if explicit { 0u64 } else { 1 << 32 };
     for len in 1..=3 {
         crate::enumerate::for_each_seq(FORMULAS.len(), len, &mut |_, d| {
             idx += 1;
             if !ctx.mine(idx) {
                 return;
             }
-            let case = json!({"part": "formulas", "sequence": d});
+            let case = json!({"part": "formulas", "sequence": d, "explicit_ordering": explicit});
             ctx.begin_case(|| case.clone());
             ctx.count("formula_sequences", 1);
             ctx.count("distinct_by_construction", 1);
-            let key = format!("{TAG} formulas on one environment: {:?}", d.iter().map(|i| FORMULAS[*i]).collect::<Vec<_>>());
+            let key = format!("{TAG} formulas on one environment ({} ordering): {:?}", if explicit { "explicit" } else { "default" }, d.iter().map(|i| FORMULAS[*i]).collect::<Vec<_>>());
             let env = Rc::new(BDDEnv::<NamedSymbol>::new());
             let mut held: Vec<(usize, Rc<BDD<NamedSymbol>>)> = vec![];
             for &fi in d {
                 ctx.count("transitions", 1);
                 let r = guarded(|| {
-                    let p = ParsedFormula::new_with_env(env.clone(), &mut std::io::BufReader::new(FORMULAS[fi].as_bytes()), Some(ordering.clone())).expect("parse");
+                    let p = ParsedFormula::new_with_env(env.clone(), &mut std::io::BufReader::new(FORMULAS[fi].as_bytes()), ordering.clone()).expect("parse");
                     rsbdd::verif_hooks::set_fp_fuel(Some(crate::conv::DEFAULT_FUEL));
                     let r = p.eval();
                     rsbdd::verif_hooks::set_fp_fuel(None);
-                    r
+                    (r, lists(&p))
                 });
                 match r {
                     Err(p) => {
                         ctx.violation(key.clone(), format!("evaluating {} on the shared environment panicked: {p}", FORMULAS[fi]), case.clone());
                         return;
                     }
-                    Ok(res) => {
+                    Ok((res, ls)) => {
+                        if ls != fresh_lists[fi] {
+                            ctx.violation(key.clone(), format!("{} parsed on the shared environment has variables {:?} / free {:?}, on a fresh one {:?} / {:?}", FORMULAS[fi], ls.0, ls.1, fresh_lists[fi].0, fresh_lists[fi].1), case.clone());
+                            return;
+                        }
                         if *res != *fresh[fi] {
                             ctx.violation(key.clone(), format!("{} evaluates to {} on the shared environment and to {} on a fresh one", FORMULAS[fi], robdd::show(&res), robdd::show(&fresh[fi])), case.clone());
                             return;
@@ -1021,9 +1032,9 @@ fn replay(ctx: &mut Ctx, case: &Value) {
             // re-run the whole (tiny) formula-level part; the recorded sequence is among them
             let mut c2 = Ctx::new("C13", ctx.tier, ctx.seed, 0, 1);
             formula_sequences(&mut c2);
-            let want = format!("{:?}", case["sequence"]);
+            let want = format!("{:?}{:?}", case["sequence"], case["explicit_ordering"]);
             for v in c2.violations {
-                if format!("{:?}", v.replay["sequence"]) == want {
+                if format!("{:?}{:?}", v.replay["sequence"], v.replay["explicit_ordering"]) == want {
                     ctx.violation(v.key, v.what, v.replay);
                 }
             }
